@@ -125,6 +125,9 @@ def extra_cases(h):
             got = res[1]["dec"].limit
             h.check(got == want and type(got) is type(want), key, f"dec.limit = {got!r}, the source attribute tok.limit is {want!r}", {"style": style, "argv": argv})
             h.nontrivial(key)
+    # (3) a link target nested inside a class group that is itself the source of another link (containment: the nested object must be built
+    #     before its owner, and its own source before it)
+    nested_target_cases(h)
     # (2) history: instantiate, add a link whose source is declared after its target, instantiate again
     classes = make_classes(3)
     for first, second in itertools.permutations([(0, 1), (2, 0), (2, 1), (1, 0)], 2):
@@ -151,6 +154,62 @@ def extra_cases(h):
         ok = all(pos[f"C{x}"] < pos[f"C{y}"] for x, y in (first, second)) and getattr(r2[1][f"g{b2}"], f"from_{a2}") is r2[1][f"g{a2}"]
         h.check(ok, key, f"after adding the second link the construction order is {[type(o).__name__ for o in LOG]}", {"links": [first, second]})
         h.nontrivial(key)
+
+
+class NB:
+    def __init__(self, z: Any = 1):
+        self.z = z
+        LOG.append(self)
+
+
+class NA:
+    def __init__(self, b: NB = None, y: int = 5):
+        self.b, self.y = b, y
+        LOG.append(self)
+
+
+class NS:
+    def __init__(self, v0: int = 100):
+        self.v = v0 + 1
+        LOG.append(self)
+
+
+class NT:
+    def __init__(self, x: Any = 0):
+        self.x = x
+        LOG.append(self)
+
+
+def nested_target_cases(h):
+    NA.__init__.__annotations__["b"] = NB
+    for name, links in (("source-feeds-nested-target;owner-feeds-another", [("s.v", "a.b.init_args.z"), ("a.y", "t.x")]), ("same-links-other-order", [("a.y", "t.x"), ("s.v", "a.b.init_args.z")]),
+                        ("only-the-nested-target", [("s.v", "a.b.init_args.z")])):
+        parser = ArgumentParser(exit_on_error=False)
+        parser.add_class_arguments(NA, "a")
+        parser.add_class_arguments(NS, "s")
+        parser.add_class_arguments(NT, "t")
+        key = f"links:nested-target-in-a-source-group:{name}"
+        ok_links = all(outcome(parser.link_arguments, s_, t_, apply_on="instantiate")[0] == "ok" for s_, t_ in links)
+        if not ok_links:
+            h.check(False, key + ":rejected", "an acyclic set of links was rejected", {"links": links})
+            continue
+        del LOG[:]
+        res = outcome(lambda: parser.instantiate_classes(parser.parse_args([f"--a.b={__name__}.NB"])))
+        if res[0] != "ok":
+            h.check(False, key + ":failed", f"instantiate_classes failed: {res[1:3]}", {"links": links})
+            h.nontrivial(key)
+            continue
+        order = [type(o).__name__ for o in LOG]
+        init = res[1]
+        ok = order.index("NS") < order.index("NB") < order.index("NA") and init.a.b.z == 101 and (("a.y", "t.x") not in links or (order.index("NA") < order.index("NT") and init.t.x == 5))
+        h.check(ok, key, f"construction order {order}, a.b.z={init.a.b.z!r}, t.x={init.t.x!r}", {"links": links})
+        h.nontrivial(key)
+    # a link from a group into an object nested in that same group is a cycle (the group needs the object, the object needs the group's attribute)
+    parser = ArgumentParser(exit_on_error=False)
+    parser.add_class_arguments(NA, "a")
+    r = outcome(parser.link_arguments, "a.y", "a.b.init_args.z", apply_on="instantiate")
+    h.check(r[0] == "exc" and r[1] == "ValueError", "links:nested-target-in-a-source-group:self-feeding-link-accepted", f"a link that makes a group feed an object nested in itself was not rejected: {r[:2]}", None)
+    h.nontrivial("links:self-feeding")
 
 
 def run_case(h, classes, K, edges, ledges, gorder, lorder_name, style, kind):
